@@ -3,8 +3,9 @@ CONSTANTS
   U = 1024
   RootT = 4
   Family = "events"
-  Grids <- Grids_q
-  MaxT = 2
+  Grids <- Grids_ev
+  MaxT = 1
   MaxRoots = 2
+  KAll = FALSE
   Known <- Known_none
 INVARIANTS ContractHolds Emit
